@@ -1109,8 +1109,10 @@ class mulgrid(object):
             self.connectionlist.append(con)
             self.connection[names] = self.connectionlist[-1]
             self.connectionlist[-1].node = self.connection_nodes(con.column)
-            for col in self.connectionlist[-1].column:
-                col.connection.add(self.connectionlist[-1])
+            cols = self.connectionlist[-1].column
+            for col in cols: col.connection.add(self.connectionlist[-1])
+            cols[0].neighbour.add(cols[1])
+            cols[1].neighbour.add(cols[0])
 
     def connection_nodes(self, cols):
         """Identifies nodes on the connection between a pair of two columns.
@@ -1132,6 +1134,8 @@ class mulgrid(object):
         """Deletes a connection from the geometry."""
         con = self.connection[colnames]
         for col in con.column: col.connection.remove(con)
+        con.column[0].neighbour.discard(con.column[1])
+        con.column[1].neighbour.discard(con.column[0])
         del self.connection[colnames]
         self.connectionlist.remove(con)
 
